@@ -31,6 +31,7 @@ type HarnessSpec struct {
 	Split   bool           `json:"split,omitempty"` // one query per obligation instead of one per kind
 	// Expect lists obligation messages that are expected to be violated (used by known findings / self tests)
 	Tag    string   `json:"tag,omitempty"`
+	Race   bool     `json:"race,omitempty"`   // lock-discipline counterexamples are replayed with a race-detector build
 	Filter []string `json:"filter,omitempty"` // property ids: keep only assertions/covers whose tag (text before ':') mentions one of them
 }
 
@@ -476,39 +477,57 @@ func (s *Session) writeReplay(spec HarnessSpec, ex *symex.Exec, model map[string
 }
 
 // nativeBinary builds (once) the test binary of the harness package with the overlay applied.
-func (s *Session) nativeBinary(pkg string) (string, string) {
+func (s *Session) nativeBinary(pkg string) (string, string) { return s.nativeBinaryOpt(pkg, false) }
+
+func (s *Session) nativeBinaryOpt(pkg string, race bool) (string, string) {
 	s.nativeMu.Lock()
 	defer s.nativeMu.Unlock()
-	if b, ok := s.nativeBin[pkg]; ok {
-		return b, s.nativeErr[pkg]
+	key := pkg
+	if race {
+		key = pkg + "#race"
+	}
+	if b, ok := s.nativeBin[key]; ok {
+		return b, s.nativeErr[key]
 	}
 	ovFile := filepath.Join(s.Scratch, "overlay.json")
 	rep := map[string]map[string]string{"Replace": s.ovPaths}
 	data, _ := json.Marshal(rep)
 	os.WriteFile(ovFile, data, 0o644)
-	bin := filepath.Join(s.Scratch, strings.ReplaceAll(pkg, "/", "_")+".test")
-	cmd := exec.Command("go", "test", "-c", "-vet=off", "-tags=verif", "-overlay", ovFile, "-o", bin, "./"+pkg)
+	bin := filepath.Join(s.Scratch, strings.ReplaceAll(key, "/", "_")+".test")
+	args := []string{"test", "-c", "-vet=off", "-tags=verif", "-overlay", ovFile, "-o", bin}
+	env := append(os.Environ(), "GOFLAGS=-mod=mod", "GOPROXY=off", "GOSUMDB=off", "GOTOOLCHAIN=local")
+	if race {
+		args = append(args, "-race")
+		env = append(env, "CGO_ENABLED=1")
+	}
+	cmd := exec.Command("go", append(args, "./"+pkg)...)
 	cmd.Dir = s.Repo
-	cmd.Env = append(os.Environ(), "GOFLAGS=-mod=mod", "GOPROXY=off", "GOSUMDB=off", "GOTOOLCHAIN=local")
+	cmd.Env = env
 	out, err := cmd.CombinedOutput()
 	if err != nil {
-		s.nativeBin[pkg] = ""
-		s.nativeErr[pkg] = string(out)
+		s.nativeBin[key] = ""
+		s.nativeErr[key] = string(out)
 		return "", string(out)
 	}
-	s.nativeBin[pkg] = bin
+	s.nativeBin[key] = bin
 	return bin, ""
 }
 
 // replayNative runs the harness natively with the counterexample and reports whether the same failure occurs.
 func (s *Session) replayNative(spec HarnessSpec, file string, kind, msg string) (string, string) {
-	bin, berr := s.nativeBinary(spec.Pkg)
+	// lock-discipline counterexamples of harnesses marked "race" are confirmed by the race detector
+	race := spec.Race && strings.Contains(msg, "while holding its mutex")
+	bin, berr := s.nativeBinaryOpt(spec.Pkg, race)
 	if bin == "" {
 		return "build-failed", lastLines(berr, 5)
 	}
 	dir, _ := os.MkdirTemp(s.Scratch, "replay-")
 	defer os.RemoveAll(dir)
-	args := []string{"-test.run", "^TestVerifReplay$", "-test.timeout", "60s", "-test.v"}
+	to := "60s"
+	if race {
+		to = "240s"
+	}
+	args := []string{"-test.run", "^TestVerifReplay$", "-test.timeout", to, "-test.v"}
 	if spec.Pkg == "cmd/hidi" {
 		args = nil // package main parses its own flags in init
 	}
@@ -521,6 +540,11 @@ func (s *Session) replayNative(spec HarnessSpec, file string, kind, msg string) 
 	for _, l := range strings.Split(text, "\n") {
 		if strings.HasPrefix(strings.TrimSpace(l), "REPLAY-RESULT") {
 			line = strings.TrimSpace(l)
+		}
+	}
+	if race {
+		if where := raceInCodeUnderTest(text); where != "" {
+			return "reproduced", "REPLAY-RESULT kind=assert msg=race detector: DATA RACE in the code under test: " + where
 		}
 	}
 	if line == "" {
@@ -581,4 +605,46 @@ var _ ssa.Instruction
 func (p *Prepared) release() {
 	p.ex = nil
 	p.jobs = nil
+}
+
+// raceInCodeUnderTest scans race-detector output for a report in which at least one of the two conflicting accesses
+// has its innermost repository frame in the code under test (not in an overlay harness file, not in the verifrt
+// runtime); it returns "file:line <-> file:line" of the first such report, or "".
+func raceInCodeUnderTest(text string) string {
+	for _, block := range strings.Split(text, "WARNING: DATA RACE")[1:] {
+		if i := strings.Index(block, "=================="); i >= 0 {
+			block = block[:i]
+		}
+		lines := strings.Split(block, "\n")
+		var tops []string
+		for i, l := range lines {
+			t := strings.TrimSpace(l)
+			if (strings.HasPrefix(t, "Read at") || strings.HasPrefix(t, "Write at") || strings.HasPrefix(t, "Previous read at") || strings.HasPrefix(t, "Previous write at") ||
+				strings.HasPrefix(t, "Atomic") || strings.HasPrefix(t, "Previous atomic")) && i+2 < len(lines) {
+				// innermost frame that belongs to the repository: skip runtime/library frames (map access helpers etc.)
+				for j := i + 1; j+1 < len(lines) && strings.TrimSpace(lines[j]) != ""; j += 2 {
+					loc := strings.TrimSpace(lines[j+1])
+					if strings.HasPrefix(loc, "/repo/") {
+						tops = append(tops, strings.Fields(loc)[0])
+						break
+					}
+				}
+			}
+		}
+		if len(tops) != 2 {
+			continue
+		}
+		// at least one of the two accesses is made by the code under test (the other may be the harness's
+		// stand-in for a concurrent writer); races between two harness accesses are not about the repository
+		under := false
+		for _, t := range tops {
+			if !strings.Contains(t, "/zz_verif_") && !strings.Contains(t, "/internal/verifrt/") {
+				under = true
+			}
+		}
+		if under {
+			return strings.TrimPrefix(tops[0], "/repo/") + " <-> " + strings.TrimPrefix(tops[1], "/repo/")
+		}
+	}
+	return ""
 }
